@@ -155,6 +155,18 @@ def rule_c(ctx):
         ctx.check(dominated_by_true_edge(b, bb, "RenderOptions", "include_link_footnotes", True),
                   "C08-C", "ref-under-option", s, b.id,
                   "reference emission must be reachable only through the true edge of include_link_footnotes")
+        # ... and on nothing else: every link that was counted gets its reference
+        others = []
+        for (a, s2) in b.cdeps_transitive(bb):
+            truth, src = edge_is_true(b, a, s2)
+            if src and src_field(src) and src_field(src)[1] == "include_link_footnotes":
+                continue
+            if src and src[0] == "discr":
+                continue  # `?` plumbing
+            others.append(b.term(a)["span"])
+        ctx.check(not others, "C08-C", "ref-under-option-only", s, b.id,
+                  "the [k] reference is written under a further condition (%s): a link that was counted (its target is in the "
+                  "footnote list) can be left without its reference" % others[:2])
         ctx.check(b.dominates(ibb, bb) and ibb != bb, "C08-C", "ref-after-inner-end_link", s, b.id,
                   "reference must be emitted after the sub-renderer's end_link (closing decoration)")
     # start_link: push happens and the inner start_link is called
